@@ -38,7 +38,7 @@ func init() {
 	core.Register(&core.Check{
 		ID:    prop,
 		Level: "model_checking",
-		Rule: "BFS over canonical world states reached by chains install(values) -> (upgrade x {default,reset,reuse,reset-then-reuse} x value trees {none,{a:1},{a:null},{a:{x:1}},{b:s},{a:{y:2}}[,{a:{x:null}}]} " +
+		Rule: "BFS over canonical world states reached by chains install(values) -> (upgrade x {default,reset,reuse,reset-then-reuse} x value trees {none,{a:1},{a:null},{a:{x:1}},{b:s},{a:{y:2}}[,{a:{x:null}}]} (empties plans: {none,{a:{}},{a:{x:{}}},{a:{x:1}},{a:{x:{p:1}}}} after installs {a:{x:5}} and {a:{x:{p:1,q:2}}}) " +
 			"x charts (per plan: the version after the deployed one | same and next | all of v1..v3; defaults of a,b,c differ between versions, a changes type) | rollback to every stored revision)*, " +
 			"at most one failing upgrade per chain (reduced alphabet, one injected fault) so that newest != deployed, otherwise fault-free; memory and secrets drivers; every transition is the real action on a clone of the state; the reference (overlay / effective values / defaults in force) " +
 			"is evaluated on every transition against Release.Config of every stored revision, the probe document in Release.Manifest and the probe ConfigMap in the simulated cluster; " +
@@ -58,11 +58,12 @@ func init() {
 			"null in new values is a value: overlay(old,new)[k]=new[k] (maps on both sides overlaid recursively); rendered values are compared with null-valued keys dropped on both sides",
 			"rendered values of a revision are required to equal effective(chart defaults in force, Config recorded for that revision); defaults in force follow the path: reuse-values keeps those of the deployed revision, other upgrades take the new chart's, rollback takes the target's",
 			"states that follow a violating transition are not expanded (consequences are not separate findings)",
-			"charts have no subcharts; values trees are built from keys a, b (user) and a, b, c (defaults) with scalars, maps of depth 1 and null",
+			"charts have no subcharts; values trees are built from keys a, b (user) and a, b, c (defaults) with scalars, null, maps of depth <= 2 and (empties plans) empty maps at depth 1 and 2; an empty map in the new values overrides no key",
 		},
 		RequiredFloors: []string{"overlay-both-contribute", "overlay-nested-merge", "carry-forward", "default-replaced", "reset-drops-old", "defaults-stay-old", "defaults-switch-new",
 			"rollback-restores-different", "null-recorded", "type-scalar-to-map", "type-map-to-scalar", "secrets-json-roundtrip", "rollback-to-reuse-revision", "chain-reuse-reuse",
-			"failed-upgrade-recorded:reject", "failed-upgrade-recorded:wait-fail", "carry-from-deployed-not-latest", "defaults-from-deployed-not-latest", "rollback-to-failed-revision"},
+			"failed-upgrade-recorded:reject", "failed-upgrade-recorded:wait-fail", "carry-from-deployed-not-latest", "defaults-from-deployed-not-latest", "rollback-to-failed-revision",
+			"empty-over-populated-depth1", "empty-over-populated-depth2", "populated-over-empty-depth1", "populated-over-empty-depth2", "empty-table-keeps-defaults"},
 	})
 }
 
@@ -95,6 +96,18 @@ var stepValues = []namedVals{
 	{"a={y:2}", map[string]any{"a": map[string]any{"y": 2}}}, // type change from a scalar, nested merge onto a map
 }
 
+// emptyValues: the alphabet of the "empties" plans. An empty table in the new
+// values overrides no key: over a populated table of the deployed revision
+// (depth 1: a, depth 2: a.x) the old subtree is carried forward; the reverse
+// (populated new over empty old) fills it; {} against a scalar is a type change.
+var emptyValues = []namedVals{
+	{"none", nil},
+	{"a={}", map[string]any{"a": map[string]any{}}},
+	{"a={x:{}}", map[string]any{"a": map[string]any{"x": map[string]any{}}}},
+	{"a={x:1}", map[string]any{"a": map[string]any{"x": 1}}},
+	{"a={x:{p:1}}", map[string]any{"a": map[string]any{"x": map[string]any{"p": 1}}}},
+}
+
 var stepValuesThorough = []namedVals{
 	{"a={x:null}", map[string]any{"a": map[string]any{"x": nil}}},
 }
@@ -112,6 +125,7 @@ var installs = map[string]installSpec{
 	"i-anull":  {"1", map[string]any{"a": nil}},
 	"i2-a5-bu": {"2", map[string]any{"a": 5, "b": "u"}},
 	"i2-amap":  {"2", map[string]any{"a": map[string]any{"x": 5}}},
+	"i-adeep":  {"1", map[string]any{"a": map[string]any{"x": map[string]any{"p": 1, "q": 2}}}},
 }
 
 var modes = []string{"default", "reset", "reuse", "reset-then-reuse"}
@@ -167,6 +181,7 @@ var (
 	// quick: the empty install is left to the thorough tier (the empty record is still reached by reset-values with no values)
 	initsQuick    = []string{"i-a5-bu", "i-amap", "i-anull"}
 	initsFour     = []string{"i-none", "i-a5-bu", "i-amap", "i-anull"}
+	initsEmpties  = []string{"i-amap", "i-adeep"}
 	initsThorough = []string{"i-none", "i-a5-bu", "i-amap", "i-anull", "i2-a5-bu", "i2-amap"}
 )
 
@@ -178,13 +193,20 @@ func plans(tier string) []plan {
 			{"mem-len4-nextchart", []string{"memory"}, 4, initsThorough, stepValues, "next", true},
 			{"sec-len3-same+next", []string{"secrets"}, 3, initsFour, stepValues, "same,next", true},
 			{"sec-len4-nextchart", []string{"secrets"}, 4, []string{"i-a5-bu"}, stepValues, "next", false},
+			{"mem-len4-empties", []string{"memory"}, 4, initsEmpties, emptyValues, "next", false},
+			{"sec-len3-empties", []string{"secrets"}, 3, initsEmpties, emptyValues, "next", false},
 		}
 	}
 	return []plan{
 		{"mem-len3-same+next", []string{"memory"}, 3, initsQuick, stepValues, "same,next", true},
 		{"sec-len3-nextchart", []string{"secrets"}, 3, initsQuick, stepValues, "next", true},
+		{"mem-len3-empties", []string{"memory"}, 3, initsEmpties, emptyValues, "next", false},
+		{"sec-len2-empties", []string{"secrets"}, 2, initsEmpties, emptyValues, "next", false},
 	}
 }
+
+// allInits: every install, simplest first (used by the minimiser).
+var allInits = append(append([]string{}, initsThorough...), "i-adeep")
 
 func nextChart(v string) string {
 	switch v {
@@ -868,6 +890,36 @@ func evaluate(t *opspace.Transition) (v verdict) {
 	if kindOf(want, "a") == "null" {
 		floor("null-recorded")
 	}
+	if mode == "reuse" || mode == "reset-then-reuse" {
+		sub := func(m map[string]any, path ...string) (map[string]any, bool) {
+			for _, k := range path {
+				n, ok := m[k].(map[string]any)
+				if !ok {
+					return nil, false
+				}
+				m = n
+			}
+			return m, true
+		}
+		for _, lv := range []struct {
+			name string
+			path []string
+		}{{"depth1", []string{"a"}}, {"depth2", []string{"a", "x"}}} {
+			n, nok := sub(nw, lv.path...)
+			o, ook := sub(depCfg, lv.path...)
+			if nok && ook && len(n) == 0 && len(o) > 0 {
+				floor("empty-over-populated-" + lv.name)
+			}
+			if nok && ook && len(n) > 0 && len(o) == 0 {
+				floor("populated-over-empty-" + lv.name)
+			}
+		}
+	}
+	if ua, ok := got["a"].(map[string]any); ok && len(ua) == 0 {
+		if da, ok := dn["a"].(map[string]any); ok && len(da) > 0 {
+			floor("empty-table-keeps-defaults")
+		}
+	}
 	if t.Driver == "secrets" && hasFloat(any(dep.Config)) {
 		floor("secrets-json-roundtrip")
 	}
@@ -953,7 +1005,7 @@ func minimise(r opspace.Replay, f finding) (opspace.Replay, string) {
 		suffixes = append([]opspace.Replay{suffix}, suffixes...)
 	}
 	for _, sfx := range suffixes {
-		for _, init := range initsThorough {
+		for _, init := range allInits {
 			cand := opspace.Replay{Driver: r.Driver, Init: init, Path: sfx.Path}
 			if nf, hit := lastFinding(cand, f.Key); hit {
 				return cand, nf.What
@@ -973,7 +1025,7 @@ func minimise(r opspace.Replay, f finding) (opspace.Replay, string) {
 			}
 		}
 	}
-	for _, init := range initsThorough {
+	for _, init := range allInits {
 		if init == r.Init {
 			break
 		}
